@@ -307,6 +307,7 @@ def writers():
         "enc_header": lambda x: (lambda o: mk_header(x).serialize(o)),
         "enc_multimap": lambda x: (lambda o: impl_write_multimap(x, o)),
         "enc_info": lambda x: (lambda o: impl_write_info(x, o)),
+        "enc_info_file": lambda x: (lambda o: impl_write_info_file(x, o)),
     }
 
 
@@ -333,6 +334,7 @@ def readers():
         "dec_header": (read_header, lambda x: x),
         "load_multimap": (impl_load_multimap, lambda ls: [[j_basic(b) for b in l] for l in ls]),
         "dec_info": (impl_read_info, lambda x: x),
+        "dec_unaligned": (impl_read_unaligned, int),
     }
 
 
@@ -342,7 +344,7 @@ READER_OF = {"write_int_neg": ["read_int_neg"], "write_string": ["read_string", 
              "write_list_of_pairs": ["read_list_of_pairs"], "write_dict": ["read_dict"], "write_penalty": ["read_penalty"],
              "enc_event": ["dec_event"], "enc_match": ["dec_match"], "enc_ra": ["dec_ra", "quick_ra"],
              "enc_basic": ["dec_basic"], "enc_header": ["dec_header"], "enc_multimap": ["load_multimap"],
-             "enc_info": ["dec_info"]}
+             "enc_info": ["dec_info", "dec_unaligned"], "enc_info_file": ["dec_info", "dec_unaligned"]}
 # readers that must not be run on damaged input (the real loop does not terminate on a truncated file)
 NO_DAMAGE = {"load_multimap"}
 
@@ -378,13 +380,47 @@ def impl_write_info(x, outf):
     m.S.write_list([G.from_cps(s) for s in x["groups"]], outf, m.S.write_string)
 
 
-def impl_read_info(inf):
-    """DatasetProcessor.load_read_info (before the list is turned into a set)"""
+def impl_write_info_file(x, outf):
+    """the `_info` file since fix cc73ffc: the three fields, then alignment_stat_counter.stats_dict[unaligned]
+    (the byte-for-byte comparison with the file the REAL collect_reads writes is props/C15reuse.py)"""
+    impl_write_info(x, outf)
+    _impl().S.write_int(x["unaligned"], outf)
+
+
+class _NoClose:
+    """what `open(dump_filename + "_info", "rb")` returns inside the real loaders: the harness stream, so that the
+    number of bytes the REAL method consumed stays observable after its `close()`"""
+
+    def __init__(self, inf):
+        self.inf = inf
+
+    def read(self, n=-1):
+        return self.inf.read(n)
+
+    def close(self):
+        pass
+
+
+def _real_info_method(name, inf):
+    """DatasetProcessor.<name>(self, dump_filename) of /repo on the stream `inf` (the methods use no attribute of self)"""
     m = _impl()
-    t = m.S.read_int(inf)
-    p = m.S.read_int(inf)
-    g = m.S.read_list(inf, m.S.read_string)
-    return {"total": t, "polya": p, "groups": [G.cps(s) for s in g]}
+    m.DP.open = lambda *a, **kw: _NoClose(inf)          # module-global `open` of src/dataset_processor.py
+    try:
+        return getattr(m.DP.DatasetProcessor, name)(None, "prefix")
+    finally:
+        del m.DP.open
+
+
+def impl_read_info(inf):
+    """the REAL DatasetProcessor.load_read_info; the group set is compared as the sorted list, so the model's list is
+    compared after sorting and de-duplication too (see `norm_info`)"""
+    t, p, g = _real_info_method("load_read_info", inf)
+    return {"total": t, "polya": p, "groups": sorted(G.cps(s) for s in g)}
+
+
+def impl_read_unaligned(inf):
+    """the REAL DatasetProcessor.load_unaligned_reads (fix cc73ffc)"""
+    return _real_info_method("load_unaligned_reads", inf)
 
 
 def impl_resolve_multimappers(reads, chr_ids):
@@ -591,6 +627,9 @@ def object_inputs(ctx, E):
                                     for _ in range(rng.randint(0, 3))]))
         inp.append(("enc_info", {"total": G.rand_u32(rng, False), "polya": G.rand_u32(rng, True),
                                  "groups": [G.cps(G.rand_str(rng, 8)) for _ in range(rng.randint(0, 4))]}))
+        inp.append(("enc_info_file", {"total": G.rand_u32(rng, False), "polya": G.rand_u32(rng, True),
+                                      "groups": [G.cps(G.rand_str(rng, 8)) for _ in range(rng.randint(0, 4))],
+                                      "unaligned": G.rand_u32(rng, True)}))
     return inp
 
 
